@@ -598,7 +598,7 @@ func c07MapCases(o *Out, decodeOnly bool) {
 	}
 	rounds := 1
 	if o.tier == "thorough" {
-		rounds = 12
+		rounds = 6
 	}
 	keyOf := func(kt reflect.Type, i int) (reflect.Value, string) {
 		switch kt.Kind() {
@@ -726,7 +726,7 @@ func c07MapCases(o *Out, decodeOnly bool) {
 				if w := c07SafeWalk(root.Elem()); bad == "" && w != "" {
 					bad = "malformed destination: " + w
 				}
-				if o.tier == "thorough" || o.Stats["map_cases"]%3 == 0 {
+				if o.Stats["map_cases"]%3 == 0 {
 					runtime.GC()
 				}
 				fresh := reflect.New(st)
